@@ -28,6 +28,11 @@
         -> tokens ; weekday hour minute second microsecond ampm tzname tzoffset ; ymd ; skipped
     pgen.parse <info> <year> <century> <dayfirst -1|0|1> <yearfirst> <fuzzy> <fuzzy_with_tokens> <cps> <classes>     _parse
         -> N | year month day weekday hour minute second microsecond ampm tzname tzoffset cs ; tokens|-
+    pgen.parsetail <same arguments as parser.parse>    `parser.parse` from the `_parse` call to the return, same answer format
+    pgen.recombine <tok;tok;…|E> <i,j,…|N>             _recombine_skipped -> [cps,cps,…]
+    pgen.init <info wire (class attributes)> <now_year> <dayfirst> <yearfirst>     parserinfo.__init__ on those class tables
+        -> year century dayfirst yearfirst ; jump keys ; weekdays ; months ; hms ; ampm ; utczone keys ; pertain keys
+    pgen.tzinfo <tzinfos wire> <tzname|N> <tzoffset|->        _build_tzinfo -> d<data> | s<cps> | f <name> <seconds>
     pgen.naive <year|-> <month|-> <day|-> <weekday|-> <hour|-> <minute|-> <second|-> <microsecond|-> <default [7 ints]>
                                                        _build_naive -> Y M D h m s us
     pgen.step <info> <year> <century> <fuzzy> <i> <tok;tok;…> <classes> <ymd> <hour|-> <ampm|-> <tzname|N> <tzoffset|->
@@ -211,6 +216,41 @@ def handleFn (op : String) (args : List String) : Option String :=
           s!"{showON rs.year} {showON rs.month} {showON rs.day} {showON rs.weekday} {showON rs.hour} {showON rs.minute} {showON rs.second} {showON rs.microsecond} {showON rs.ampm} {showOptName rs.tzname} {showOI rs.tzoffset} {showB rs.centurySpecified} ; " ++
           (match tk with | none => "-" | some l => showToks l))
       (Gen.P.parse (t.length + 1) cls i t (ob df) (ob yf) (fz == "1") (fwt == "1")))
+  | "pgen.parsetail", [flags, dflt, year, century, tzn, tzi, info, cps, classes] =>
+    (match parseIntList? flags, (parseIntList? dflt).bind DT.ofList?, year.toInt?, century.toInt?,
+           (tzn.splitOn ";").mapM parseCps?, parseTzInfos? tzi, parseCps? cps with
+      | some [df, yf, fz, fwt, ig], some d, some y, some c, some tzn, some tzi, some cs =>
+        (parseInfo? info y c).map fun inf =>
+          let cs' := if cps == "-" then [] else cs
+          let tbl := mkTable cs' (if classes == "-" then "" else classes)
+          Py.showR showResultA (Gen.P.parseTail (cs'.length + 1) (clsOfTable tbl) tzn inf cs' d (ig != 0) tzi (optBool? df) (optBool? yf)
+            (fz != 0) (fwt != 0))
+      | _, _, _, _, _, _, _ => none)
+  | "pgen.recombine", [toks, idxs] => do
+    let l ← toks? toks; let is ← (if idxs == "N" then some [] else natList? idxs)
+    some (showR showToks (Gen.P.recombineSkipped dflt l is))
+  | "pgen.init", [info, y, df, yf] => do
+    let y ← y.toInt?
+    let grp (s : String) : Option (List (List String)) := (parseGroups? s).map (·.map (·.map String.ofList))
+    let t : PPy.InfoTables ← match info.splitOn ":" with
+      | [hd] => if hd.startsWith "D" then some PPy.stockTables else none
+      | [_, jump, wd, mo, hms, ampm, utc, pert, _] => do
+        pure { JUMP := ← grp jump, WEEKDAYS := ← grp wd, MONTHS := ← grp mo, HMS := ← grp hms, AMPM := ← grp ampm,
+               UTCZONE := ← grp utc, PERTAIN := ← grp pert, TZOFFSET := [] }
+      | _ => none
+    -- printed the way a Python dict holds them: a repeated key keeps its first position and takes the last value
+    let dd (l : List (Token × Nat)) : List (Token × Nat) :=
+      l.foldl (fun acc p => if acc.any (·.1 = p.1) then acc.map (fun q => if q.1 = p.1 then p else q) else acc ++ [p]) []
+    let sk (l : List Token) : String := ",".intercalate ((dd (l.map (·, 0))).map (fun p => showCps p.1))
+    let sd (l : List (Token × Nat)) : String := ",".intercalate ((dd l).map fun p => showCps p.1 ++ "=" ++ toString p.2)
+    some (showR (fun i : Info => s!"{i.year} {i.century} {showB i.dayfirst} {showB i.yearfirst} ; {sk i.jump} ; {sd i.weekdays} ; {sd i.months} ; {sd i.hms} ; {sd i.ampm} ; {sk i.utczoneKeys} ; {sk i.pertain}")
+      (Gen.P.info_init t y (df == "1") (yf == "1")))
+  | "pgen.tzinfo", [tzi, name, off] => do
+    let tzi ← parseTzInfos? tzi; let name ← optName? name; let off ← parseOptInt? off
+    some (showR (fun o : PPy.TzObj => match o with
+        | .data d => "d" ++ showTzData d
+        | .tzstr s => "s" ++ showCps s
+        | .fixed nm n => s!"f {showOptName nm} {n}") (Gen.P.buildTzinfo dflt tzi name off))
   | "pgen.assigntz", [n0, n1, name] => do
     let a ← optName? n0; let b ← optName? n1; let n ← optName? name
     some (showR (fun d : PPy.FoldDt => toString d.fold) (Gen.P.assignTzname dflt { n0 := a, n1 := b } n))
